@@ -808,7 +808,16 @@ func (e *Env) evalQuant(n *spec.Quant) (SV, error) {
 		if len(c.Args) != 1 {
 			return SV{}, fmt.Errorf("elems() takes one slice")
 		}
-		sv, err := e.eval(c.Args[0])
+		// elems(old(s)): the elements s had in the old state (slice value and cells both read there)
+		senv := e
+		sarg := c.Args[0]
+		if oc, ok := sarg.(*spec.Call); ok && oc.Fun == "old" && len(oc.Args) == 1 {
+			o := *e
+			o.inOld = true
+			senv = &o
+			sarg = oc.Args[0]
+		}
+		sv, err := senv.eval(sarg)
 		if err != nil {
 			return SV{}, err
 		}
@@ -821,7 +830,7 @@ func (e *Env) evalQuant(n *spec.Quant) (SV, error) {
 		}
 		m := Term{vn, SInt}
 		obj := SObj(sv.T)
-		cell := vc.load(e.state(), st.Elem(), obj, m)
+		cell := vc.load(senv.state(), st.Elem(), obj, m)
 		inner := e.with(n.Var, SV{T: cell, Ty: st.Elem(), Loc: &Loc{obj, m, st.Elem()}})
 		body, err := inner.evalBool(n.Body)
 		if err != nil {
@@ -910,6 +919,12 @@ func (e *Env) evalCall(n *spec.Call) (SV, error) {
 	case "old":
 		o := *e
 		o.inOld = true
+		return o.eval(n.Args[0])
+	case "now":
+		// now(x) inside old(...): x is evaluated in the current state again (e.g. an index computed
+		// from the new state used to read the old contents: old(s[now(i)]))
+		o := *e
+		o.inOld = false
 		return o.eval(n.Args[0])
 	case "len", "cap":
 		v, err := arg(0)
